@@ -23,10 +23,13 @@ def search_c01():
         X = rs.randint(1, 40, size=(len(labels), p)) / 8.0
         ds = rsatoolbox.data.Dataset(X, obs_descriptors={'c': labels})
         means = np.array([X[labels == c].mean(0) for c in range(n_cond)])
-        for method in ('euclidean', 'correlation', 'poisson'):
+        A = rs.randint(-2, 3, size=(p, p)) / 4.0
+        prec = A @ A.T + np.eye(p)
+        for method in ('euclidean', 'correlation', 'poisson', 'mahalanobis'):
             if method == 'correlation' and (p < 2 or np.any(means.std(1) < 1e-6)):
                 continue
-            got = calc_rdm(ds, method=method, descriptor='c').dissimilarities[0]
+            kw = dict(noise=prec) if method == 'mahalanobis' else {}
+            got = calc_rdm(ds, method=method, descriptor='c', **kw).dissimilarities[0]
             want = []
             for i in range(n_cond):
                 for j in range(i + 1, n_cond):
@@ -35,6 +38,8 @@ def search_c01():
                         want.append(np.sum((a - b) ** 2) / p)
                     elif method == 'correlation':
                         want.append(1 - np.corrcoef(a, b)[0, 1])
+                    elif method == 'mahalanobis':
+                        want.append((a - b) @ prec @ (a - b) / p)
                     else:
                         la, lb = (a + 0.1) / 1.1, (b + 0.1) / 1.1      # defaults prior_lambda=1, prior_weight=0.1
                         want.append(np.sum((la - lb) * (np.log(la) - np.log(lb))) / p)
@@ -42,6 +47,46 @@ def search_c01():
                 return _fail('calc_rdm', dict(method=method, measurements=X.tolist(), labels=labels.tolist()),
                              [float(x) for x in got], [float(x) for x in want],
                              f'calc_rdm(method={method!r}) is not the formula of the property on the condition means')
+    return None
+
+
+def search_c02():
+    import rsatoolbox
+    from rsatoolbox.rdm import calc_rdm
+    rs = np.random.RandomState(11)
+    for rep in range(40):
+        n_cond, p, n_fold = rs.randint(2, 5), rs.randint(1, 4), rs.randint(2, 5)
+        conds = np.tile(np.arange(n_cond), n_fold)
+        folds = np.repeat(np.arange(n_fold), n_cond)
+        perm = rs.permutation(len(conds))
+        conds, folds = conds[perm], folds[perm]
+        X = rs.randint(1, 40, size=(len(conds), p)) / 8.0
+        A = rs.randint(-2, 3, size=(p, p)) / 4.0
+        prec = A @ A.T + np.eye(p)
+        ds = rsatoolbox.data.Dataset(X, obs_descriptors={'c': conds, 'f': folds})
+        m = np.array([[X[(conds == c) & (folds == f)].mean(0) for f in range(n_fold)] for c in range(n_cond)])
+        for method in ('crossnobis', 'poisson_cv'):
+            kw = dict(noise=prec) if method == 'crossnobis' else {}
+            got = calc_rdm(ds, method=method, descriptor='c', cv_descriptor='f', **kw).dissimilarities[0]
+            want = []
+            for a in range(n_cond):
+                for b in range(a + 1, n_cond):
+                    tot = 0.0
+                    for f1 in range(n_fold):
+                        for f2 in range(n_fold):
+                            if f1 == f2:
+                                continue
+                            if method == 'crossnobis':
+                                tot += (m[a, f1] - m[b, f1]) @ prec @ (m[a, f2] - m[b, f2])
+                            else:
+                                l1 = lambda v: (v + 0.1) / 1.1          # noqa: E731
+                                tot += (l1(m[a, f1]) - l1(m[b, f1])) @ (np.log(l1(m[a, f2])) - np.log(l1(m[b, f2])))
+                    want.append(tot / (n_fold * (n_fold - 1)) / p)
+            if not np.allclose(got, want, rtol=1e-8, atol=1e-11):
+                return _fail('calc_rdm', dict(method=method, measurements=X.tolist(), conditions=conds.tolist(), folds=folds.tolist(),
+                                              precision=prec.tolist() if method == 'crossnobis' else None),
+                             [float(x) for x in got], [float(x) for x in want],
+                             f'calc_rdm(method={method!r}) is not the mean over ordered pairs of distinct folds of the between-fold products')
     return None
 
 
